@@ -92,12 +92,39 @@ class CancelWorkflowHandler(StabilizeHandler[CancelWorkflow], _ControlHandler):
     def _handle_with_retry(self, message: CancelWorkflow) -> None:
         def on_execution(execution: Workflow) -> None:
             if execution.status.is_complete:
-                logger.debug(
-                    "Ignoring CancelWorkflow for %s - already %s",
-                    execution.id,
-                    execution.status,
+                # A worker that died between persisting the flag and pushing
+                # the fan-out leaves this message un-acked; the workflow can
+                # finish before it is redelivered. The stages that never
+                # started are still canceled then, as the uninterrupted
+                # handler would have done.
+                leftover = (
+                    [s for s in execution.top_level_stages() if not s.status.is_complete]
+                    if execution.is_canceled
+                    else []
                 )
-                self._mark_processed_only(message, "CancelWorkflow")
+                if not leftover:
+                    logger.debug(
+                        "Ignoring CancelWorkflow for %s - already %s",
+                        execution.id,
+                        execution.status,
+                    )
+                    self._mark_processed_only(message, "CancelWorkflow")
+                    return
+                with self.repository.transaction(self.queue) as txn:
+                    if message.message_id:
+                        txn.mark_message_processed(
+                            message_id=message.message_id,
+                            handler_type="CancelWorkflow",
+                            execution_id=message.execution_id,
+                        )
+                    for stage in leftover:
+                        txn.push_message(
+                            CancelStage(
+                                execution_type=message.execution_type,
+                                execution_id=message.execution_id,
+                                stage_id=stage.id,
+                            )
+                        )
                 return
 
             user = message.user or "unknown"
